@@ -24,6 +24,16 @@ T = {
  "C17-empty-signatures-success": ("C17", "authorization file with zero signatures (result stays None, taken as success)", "caught as written (0..10 signatures x thresholds)"),
  "C18-regex-dollar-newline": ("C18", "PIN given as an option consisting of 7 alphanumerics and a trailing newline (regex $ matches before it)", "MISSED at first (PIN classes had no control characters); caught after adding newline / CR / NUL / space / non-ASCII-digit PIN classes to C18 and near-valid probes to C10's validity-predicate stage"),
  "C19-message-reuses-old-file": ("C19", "signapp message -o <file> when <file> already holds an authorization written for another image", "MISSED at first (message was only printed, never written twice to one path); caught after C19 writes the authorization of each image of a run to the same output path and compares the embedded hash"),
+ "C01-r2-btc-payload-cache": ("C01", "two consecutive authorized segwit sign requests for the same transaction with witness scripts of different length on one manager (payload prefix cached by (tx, mode))", "caught as written by the request histories added after round 1"),
+ "C02-r2-reconnect-before-validation": ("C02", "a link failure on an accepted request, then a sign request that must be refused at the second validation stage (reconnection now happens before validation: device contacted for a refused request)", "MISSED at first (every request was classified on a fresh manager); caught after adding the 'reconnection pending' enumeration stage, where closing/re-opening the link counts as device contact"),
+ "C03-r2-lazy-map-node-too-big": ("C03", "authorized sign whose merkle proof has a node > 255 bytes, after path, tx and receipt were accepted (lazy map moves the size check outside its handler)", "caught as written (oversized well-typed requests: proof-node-size 256/1000)"),
+ "C04-r2-pubkey-cache": ("C04", "a getPubKey for the same path succeeded before on the same manager; later outcomes of the device are masked by the cached key", "MISSED at first by C04 (each cell on a fresh manager; C13 and C11 flagged it); caught after adding the 'after-a-successful-run' stage to C04"),
+ "C05-r2-coinbase-hash-cache": ("C05", "a header with the same block hash sent again on the same manager with another coinbase transaction (hash cached by block hash)", "MISSED at first (second requests used unrelated headers); caught after adding related second requests (same hash-relevant fields, other merkle proof / coinbase)"),
+ "C06-r2-memoised-chain-consumed": ("C06", "second validation of the same certificate object, or a target listed twice (memoised chain list consumed by pop)", "MISSED at first (one validation per loaded object, unique targets); caught after adding repeated validations with the same / another root and duplicate targets"),
+ "C07-r2-signature-verified-flag": ("C07", "same certificate object validated first with the genuine root and then with another root (verified flag not tied to the certifier)", "MISSED at first; caught after adding repeated validations with the same / another root"),
+ "C08-r2-natural-sort-paths": ("C08", "key set with two paths whose text order and numeric order differ (m/44'/2'/... next to m/44'/137'/...)", "caught as written (extra paths in the key pool)"),
+ "C09-r2-finally-to-else": ("C09", "bootloader start with a PIN change needed, and the change fails (refused / time-out / commit failure): the manager carries on and serves", "MISSED at first by C09 (the grid's PIN change always succeeded; C10 flagged it); caught after adding the change-outcome dimension to the C09 grid"),
+ "C10-r2-reconnect-swallows-interrupt": ("C10", "manager started with the device already in the signer and a PIN change pending, link failure, device back in bootloader: the change happens inside a request and the interrupt is swallowed", "MISSED at first (PIN changes were only driven through start-up); caught after adding the 'reconnect' stage to C10"),
 }
 
 
